@@ -49,6 +49,22 @@ def run_cmd(cmd, cwd=None, timeout=3600):
     return p.returncode, p.stdout.decode(errors="replace")
 
 
+class BuildLock:
+    """serialises table regeneration and `lake build` across concurrently running checks (one lake project)"""
+
+    def __enter__(self):
+        import fcntl
+        os.makedirs(os.path.join(LEAN_DIR, ".lake"), exist_ok=True)
+        self.fh = open(os.path.join(LEAN_DIR, ".lake", "fcv-build.lock"), "w")
+        fcntl.flock(self.fh, fcntl.LOCK_EX)
+        return self
+
+    def __exit__(self, *a):
+        import fcntl
+        fcntl.flock(self.fh, fcntl.LOCK_UN)
+        self.fh.close()
+
+
 def lake_build(targets: list[str]) -> tuple[bool, str]:
     rc, out = run_cmd(["lake", "build"] + targets, cwd=LEAN_DIR)
     return rc == 0, out
